@@ -123,6 +123,7 @@ const templateUse = `; [String(bump()) + adder(), boundBox("e", "m"), boundBox(T
  (T.nested.deep[1].x += 1), (tDate.setTime(T.count), tDate.getTime()), (tRe.test("aa"), tRe.lastIndex),
  (tErr.message += "!", tErr.message), (tStr.p = 1, Object.keys(tStr).join()), tAcc.v, (tAcc.v = 5, box.n),
  (function(){ var s = 0, t; for (var i = 0; i < 40; i++) { t = tU1 + String.fromCharCode(0xDC00 + i); s += t.charCodeAt(3) + t.length; t = tU2; t += String.fromCharCode(0xDC40 + i); s += t.charCodeAt(4); s += (tU3 + "k" + i).length + (tU3 + String.fromCharCode(0xDC80 + i)).charCodeAt(2) } return s })(),
+ (Date.parse("2001-02-03T04:05:06Z") + Date.parse("2001-02-03") + new Date("Feb 3 2001 04:05:06 GMT").getTime() + Date.parse("2001") + (isNaN(Date.parse("no date " + T.count)) ? 1 : 0)),
  Object.keys(T).join()].join(";")`
 
 // run program i according to mode on a runtime prepared by prep; returns the outcome
